@@ -110,12 +110,16 @@ CLAIMED = {
         technique="Lean 4 proof (resolver invariant by induction over declarations and imports) + differential check",
         ref="DESIGN.md section 8, C08"),
     "C11": dict(
-        text="Partial. Lean theorems about the reference front end: it is total (returns a tree or an error value for every file system, root and fuel), "
-             "a syntax error is an error value citing its file, and every line number the lexer attaches to a token or to a lexical error lies between 1 and "
-             "the number of lines of the source (induction over the lexer's runs). That no exception escapes the real parser and that every error renders "
-             "with existing cited lines is checked by the harness on random text, every kind of prefix, token-level mutations and out-of-domain literals.",
-        note="Exception propagation (Lark VisitError, beartype, assert) is CPython behaviour a model cannot exhibit.",
-        technique="Lean 4 proof (totality, lexer line bounds) + malformed-input streams against the real parser",
+        text="Lean theorems about the reference front end: it is total (a tree or an error value for every file system, root and fuel); a syntax "
+             "error is an error value citing its file; and C11_error_lines: every line it cites for a lexical or syntax error lies between 1 and "
+             "the number of lines of the source - the lexer's bookkeeping (lex_lines) composed with a safety invariant carried through every "
+             "production of the parser (SyntaxLines.lean). That no exception escapes the REAL parser and that every error renders with existing "
+             "cited lines is checked by the harness on random text, every kind of prefix, token-level mutations, out-of-domain literals and "
+             "errors of every stage placed deep inside imported modules.",
+        note="Partial in one respect: exception propagation (Lark VisitError, beartype, assert) is CPython behaviour a model cannot exhibit; "
+             "lines cited by errors of the transformer stage (semantic errors) are token lines by construction of the model but not separately "
+             "stated as a theorem.",
+        technique="Lean 4 proof (totality, cited-line bounds for lexer and parser) + malformed-input streams against the real parser",
         ref="DESIGN.md section 8, C11"),
     "C20": dict(
         text="Lean theorems about the reference module loader. C20_split_general: a file may import any number of modules at any positions between "
